@@ -215,7 +215,7 @@ def with_sep(scripts):
         out.append((M, st, name))
     return out
 def c08(ctx): return check_api_property(ctx, oracles.c08, 160, 3000, caller_mut=0.6, post=with_sep)
-def c10(ctx): return check_api_property(ctx, oracles.c10, 200, 5000, malformed=0.5, extra=column_scripts)
+def c10(ctx): return check_api_property(ctx, oracles.c10, 200, 5000, malformed=0.5, extra=lambda c: column_scripts(c) + pset_scripts(c))
 def c05(ctx): return check_api_property(ctx, oracles.c05, 200, 5000, with_io=True, extra=lambda c: ratio_scripts(c) + column_scripts(c) + loaded_edit_scripts(c))
 
 def pset_scripts(ctx):
@@ -239,6 +239,7 @@ def pset_scripts(ctx):
         if ty == "I": vals = ",".join(str(g.int32()) for _ in range(cnt)) or "-"
         elif ty == "F": vals = ",".join(g.fbits() for _ in range(cnt)) or "-"
         else: vals = ",".join(gen.xhex(g.name(0)) for _ in range(cnt)) or "-"
+        if r.random() < 0.25: L.append("pnew")          # else the set works on the parameter left by the previous ones
         L.append("pset %s %s %s" % (ty, ",".join(map(str, dims)) or "-", vals))
         g.count("pset_%s_%dd_%s" % (ty, nd, "match" if cnt == prod else "mismatch"))
     # overflow shapes (size_t product wraps only beyond 2^64: must be refused when the count differs)
